@@ -68,11 +68,12 @@ def gen(rng, tier):
 
 
 def _gen(rng, tier):
-    nv = rng.randint(1, 3)
+    big = tier == 'thorough'
+    nv = rng.randint(1, 4 if big else 3)
     vars_ = common.VARS[:nv]
     future = rng.random() < 0.35
-    cfg = sg.GenCfg(vars=vars_, ops=(ONLINE_FUTURE_OPS if future else ONLINE_OPS), max_depth=rng.randint(2, 4),
-                    max_bound=rng.choice([4, 8]), p_reuse=rng.choice([0.0, 0.15]), allow_const_only=rng.random() < 0.25)
+    cfg = sg.GenCfg(vars=vars_, ops=(ONLINE_FUTURE_OPS if future else ONLINE_OPS), max_depth=rng.randint(2, 5 if big else 4),
+                    max_bound=rng.choice([4, 8] + ([12] if big else [])), p_reuse=rng.choice([0.0, 0.15]), allow_const_only=rng.random() < 0.25)
     ast = sg.gen_formula(rng, cfg)
     used = sg.vars_of(ast)
     if not used:
@@ -81,7 +82,7 @@ def _gen(rng, tier):
     signals = {}
     late = rng.random() < 0.3          # sensors that come up at different instants
     for v in vars_:
-        s, _ = world.gen_dense_signal(rng, rng.randint(2, 8), start_q=(rng.randint(0, 6) if late else 0), max_gap_q=rng.choice([2, 4, 6]))
+        s, _ = world.gen_dense_signal(rng, rng.randint(2, 12 if big else 8), start_q=(rng.randint(0, 6) if late else 0), max_gap_q=rng.choice([2, 4, 6]))
         signals[v] = s
     text = common.dense_text(ast, sg.Spelling(rng))
     # skewed schedules: per variable independent cut points, realised as rounds
